@@ -113,22 +113,12 @@ def rule_prefixes_are_names(ck, F, rule="R7"):
     MAKE = makers[0]
     mb = F.lib.body(MAKE)
     short = MAKE.rsplit("::", 1)[-1]
-    W = og.EnvWalker(F)
     CE = og.CallExpander(F)
-    rets = []
-
-    def cb(e, env, ctx):
-        if e.get("k") == "Ret" and e.get("e") is not None:
-            rets.append((Hh.sp(e), W.NF.nf(e["e"], env)))
     try:
-        W.walk_fn(MAKE, cb)
-        nb = Hh.norm_body(mb)
+        rets = og.returned_values(F, MAKE)
     except og.Unrecognised as u:
         ck.undecided(rule, "allocator", mb["span"], f"{short} is of unrecognised shape: {u.what}")
         return
-    tail = Hh.strip(nb["value"])
-    if tail.get("k") == "Block" and tail["b"].get("tail") is not None and Hh.strip(tail["b"]["tail"]).get("k") not in ("Loop", "Ret"):
-        rets.append((Hh.sp(tail["b"]["tail"]), None))     # a value returned by falling off the end: not read here
     ck.floor(rule, "return sites of the abbreviation allocator", len(rets), 1)
     bodies = {b["path"]: b for b in F.lib.bodies if not b.get("closure")}
     cache = {}
@@ -138,7 +128,7 @@ def rule_prefixes_are_names(ck, F, rule="R7"):
         if b is None or b.get("hir") is None:
             return None
         if path not in cache:
-            cache[path] = Hh.norm_body(b)
+            cache[path] = og.with_literal_consts(F, Hh.norm_body(b))
         return cache[path]
     verdicts = {}
 
@@ -185,7 +175,7 @@ def rule_prefixes_are_names(ck, F, rule="R7"):
             ck.undecided(rule, "prefix-is-a-name", site, f"{short} returns a value that is not a plain `return` of a readable expression")
             continue
         bad = None
-        for leaf in leaves(v):
+        for leaf in og.value_alternatives(v):
             h = head(leaf)
             g = guard_ok(h[1]) if isinstance(h, tuple) and h[0] == "call" and isinstance(h[1], str) else None
             if not g or not g[0]:
